@@ -70,6 +70,37 @@ with okd_kvs (lost : bool) (kvs : fields) : bool :=
   end.
 End Okd.
 
+(* the class of documents of the write_tape theorem (writer-side shape only): no object tails, no parameter
+   values, headers hold a container, list entries are `key op value` with op <> ?= and a scalar or container value *)
+Fixpoint wx_value (v : value) : bool :=
+  match v with
+  | VScalar _ _ => true
+  | VObject fs tl => wx_fields fs && match tl with VNil => true | VCons _ _ => false end
+  | VArray items => wx_items items
+  | VArrayKv items kvs => first_item_scalar items && wx_items items && kvs_nonempty kvs && wx_kvs kvs
+  | VHeader _ v => is_container v && wx_value v
+  end
+with wx_field (f : field) : bool :=
+  match f with
+  | Field _ _ _ v => wx_value v
+  | ParamV _ _ _ => false
+  | ParamO _ _ fs => kvs_nonempty fs && wx_fields fs
+  end
+with wx_fields (fs : fields) : bool :=
+  match fs with FNil => true | FCons f r => wx_field f && wx_fields r end
+with wx_items (vs : values) : bool :=
+  match vs with VNil => true | VCons v r => negb (is_header v) && wx_value v && wx_items r end
+with wx_kvs (kvs : fields) : bool :=
+  match kvs with
+  | FNil => true
+  | FCons f r =>
+      match f with
+      | Field _ _ op v => kv_op op && negb (is_header v) && wx_value v && wx_kvs r
+      | _ => false
+      end
+  end.
+
+
 (* parameter VALUES `[[p] v ]` (known findings rt-param-value / write-tape-state-param-value) *)
 Fixpoint pv_value (v : value) : bool :=
   match v with
